@@ -99,9 +99,13 @@ PROPS = {
                 "Info = pending, Resolve repeatable, rejected Add changes nothing, chunk size bounds. Distinct = distinct history line.",
         "level_text": "Theorems (Props/C07.lean) over all operation lists: base collector holds/renders exactly the samples accepted since the last Reset "
                       "(base_faithful_log), never more than capacity, Info = held samples, rejected Add is a no-op, Reset discards everything; batch collector: "
-                      "accepted Add appends exactly that sample, rejected Add is a no-op, every chunk <= N and every chunk but the last = N for every sequence of Adds.",
-        "level_note": "Dynamic and streaming collectors are compositions of the proved components (their one-step laws are in C08/C09); their whole-history behaviour, "
-                      "wrapper stacking and the decode step (C01) are covered by the correspondence run, not by a composed theorem. The sampling collector depends on "
+                      "accepted Add appends exactly that sample, rejected Add is a no-op, every chunk <= N and every chunk but the last = N for every sequence of Adds; "
+                      "streaming and schema-aware streaming collectors (streaming_faithful_log, streaming_dynamic_faithful_log): after any sequence of Adds over a writer that "
+                      "accepts every write, the samples in the writer followed by the pending ones are exactly the accepted samples, once each and in order - across every "
+                      "automatic flush and every schema-change flush.",
+        "level_note": "The dynamic (non-streaming) collector is a composition of batch collectors (one-step laws in C08); its whole-history behaviour, Reset/Resolve/Flush interleaved "
+                      "with Adds on the streaming collectors, wrapper stacking and the decode step for them (C01 proves it for the base collector) are covered by the "
+                      "correspondence run, not by a composed theorem. The sampling collector depends on "
                       "the wall clock and is not modelled.",
         "assumptions": ["chunk size N >= 1"],
     },
